@@ -612,8 +612,11 @@ impl Runtype {
                     return Ok(Runtype::never());
                 }
 
+                // (the negations among the members are dropped before the members are rewritten: a negation that is
+                // rewritten on its own becomes `unknown`, see below)
                 let vs = vs
                     .into_iter()
+                    .filter(|it| !matches!(it.kind, RuntypeKind::StNot(_)))
                     .map(|it| it.remove_nots_of_intersections_and_empty_of_union(validators, ctx))
                     .collect::<Result<Vec<_>>>()?;
 
@@ -642,6 +645,9 @@ impl Runtype {
                     .collect::<Result<Vec<_>>>()?;
                 Ok(Runtype::any_of(vs))
             }
+            // a negation that is not a member of an intersection is what remains of `unknown & not X`: with the
+            // negation dropped, as in an intersection, that is `unknown` (code generation cannot print a negation)
+            RuntypeKind::StNot(_) => Ok(Runtype::any()),
             v => Ok(Runtype::new(v)),
         }
     }
